@@ -3,6 +3,7 @@ package props
 // C14 - model results are a pure, causal function of parameters, states and inputs.
 
 import (
+	"math"
 	"fmt"
 	"runtime"
 
@@ -22,6 +23,9 @@ func init() {
 		},
 		Workloads: []core.Workload{
 			{Name: "purity", Variant: "plain", N: core.Tiered(41*18, 41*400), Run: c14Purity},
+			// table models: a run whose inputs sit exactly on interior knots of its rating table, re-run after a near-twin
+			// whose last lookup lies one representable number above the first knot used
+			{Name: "knot-history", Variant: "plain", N: core.Tiered(150, 5000), Run: c14KnotHistory},
 			{Name: "causal", Variant: "plain", N: core.Tiered(41*18, 41*400), Run: c14Causal},
 		},
 	})
@@ -111,6 +115,28 @@ func c14Purity(c *core.Ctx) {
 		or := GenRun(o.Model, r2, 2, 1, 2, r2.IntRange(1, 10), w)
 		Execute(or)
 	}
+	// ... and a near-twin of this very run: the same parameters with every input one representable number higher, so
+	// that whatever the library remembers from its last table lookups / comparisons sits right beside this run's values
+	twin := *run
+	twin.Inputs = clone3(run.Inputs)
+	for b := range twin.Inputs {
+		for j := range twin.Inputs[b] {
+			for t, v := range twin.Inputs[b][j] {
+				if model == "RatingCurvePartition" && v >= 100 {
+					continue // the generated rating tables end at exactly 100: stay inside the table
+				}
+				twin.Inputs[b][j][t] = math.Nextafter(v, math.Inf(1))
+			}
+			// rotate by one step: the twin ENDS right beside the value this run STARTS with
+			if ser := twin.Inputs[b][j]; len(ser) > 1 {
+				first := ser[0]
+				copy(ser, ser[1:])
+				ser[len(ser)-1] = first
+			}
+		}
+	}
+	Execute(&twin)
+	c.Count("near_twin_runs_before_rerun", 1)
 	old := runtime.GOMAXPROCS(procs)
 	p3, _ := Prepare(run)
 	o3 := p3.Exec()
@@ -224,4 +250,44 @@ func c14Causal(c *core.Ctx) {
 		c.Count("truncation_points", 1)
 		c.Count("paired_executions", 2)
 	}
+}
+
+
+func c14KnotHistory(c *core.Ctx) {
+	model := "RatingCurvePartition"
+	desc := NewModel(model).Description()
+	T := c.R.IntRange(1, 6)
+	var ps PSet
+	for {
+		ps = GenPSet(model, c.R, genOpts{})
+		if len(ps[paramIndex(desc, "inputAmount")]) >= 3 {
+			break
+		}
+	}
+	tbl := ps[paramIndex(desc, "inputAmount")]
+	in := make([]float64, T)
+	for t := range in {
+		in[t] = tbl[c.R.IntRange(1, len(tbl)-2)] // interior knots only
+	}
+	run := &MRun{Model: model, N: 1, T: T, Sets: []PSet{ps}, Inputs: [][][]float64{{in}}}
+	twin := &MRun{Model: model, N: 1, T: T, Sets: []PSet{ps}, Inputs: [][][]float64{{make([]float64, T)}}}
+	for t := range in {
+		twin.Inputs[0][0][t] = math.Nextafter(in[(t+1)%T], math.Inf(1))
+	}
+	c.Begin(map[string]interface{}{"model": model, "run": run, "near_twin_run_in_between": twin})
+	c.Class(fmt.Sprintf("knot-history/n%d/T%d", len(tbl), T))
+	ref, err := Execute(run)
+	if err != nil {
+		c.Violate("prepare", model, err.Error())
+		return
+	}
+	Execute(twin)
+	again, _ := Execute(run)
+	cmpRuns(c, "rerun-after-near-twin", model, "fresh object after a run whose last table lookup lies one representable number above this run's first knot", ref, again)
+	// and once more after a run that ends far away
+	far := &MRun{Model: model, N: 1, T: 1, Sets: []PSet{ps}, Inputs: [][][]float64{{{tbl[0]}}}}
+	Execute(far)
+	again2, _ := Execute(run)
+	cmpRuns(c, "rerun-after-far-run", model, "fresh object after a run that ends at the table's first knot", ref, again2)
+	c.Count("knot_history_reruns", 2)
 }
